@@ -47,9 +47,10 @@ EXTRA = {"r": ["r0", "r1"], "g": ["g0", "g1", "g2"], "q": ["q0"], "h": ["h0", "h
 NAMES = {"t": "time", "r": "region", "g": "good", "q": "quality", "h": "height"}
 
 
-def mk_dims(grid, extra):
+def mk_dims(grid, extra, tl="t"):
+    """tl: the letter of the time dimension ('t' with the name "time", or e.g. 'y' with the name "year")"""
     import flodym as fd
-    dl = [fd.Dimension(name="time", letter="t", items=list(grid), dtype=int)]
+    dl = [fd.Dimension(name="time" if tl == "t" else "year", letter=tl, items=list(grid), dtype=int)]
     for l in extra:
         dl.append(fd.Dimension(name=NAMES[l], letter=l, items=list(EXTRA[l])))
     return fd.DimensionSet(dim_list=dl)
@@ -64,7 +65,8 @@ def mk_param(dims, pdesc):
     import flodym as fd
     if not isinstance(pdesc, dict):
         return pdesc
-    ds = fd.DimensionSet(dim_list=[dims[l] for l in pdesc["dims"]])
+    tl = dims.letters[0]          # parameter descriptions say "t" for the time dimension, whatever its letter
+    ds = fd.DimensionSet(dim_list=[dims[tl if l == "t" else l] for l in pdesc["dims"]])
     return fd.FlodymArray(dims=ds, values=np.array([float(v) for v in pdesc["values"]]).reshape(ds.shape))
 
 
@@ -88,7 +90,7 @@ def param_full(case):
 def mk_lifetime(case, dims):
     import flodym as fd
     lt = case["lifetime"]
-    kw = dict(dims=dims, time_letter="t", inflow_at=lt.get("inflow_at", "middle"), n_pts_per_interval=lt.get("n_pts", 1))
+    kw = dict(dims=dims, time_letter=case.get("time_letter", "t"), inflow_at=lt.get("inflow_at", "middle"), n_pts_per_interval=lt.get("n_pts", 1))
     if lt["kind"] == "probe":
         return probe_class()(mean=mk_param(dims, lt["mean"]), **kw)
     if lt["kind"] == "fixed":
@@ -101,7 +103,8 @@ def mk_lifetime(case, dims):
 
 def mk_stock(case):
     import flodym as fd
-    dims = mk_dims(case["grid"], case["extra"])
+    tl = case.get("time_letter", "t")
+    dims = mk_dims(case["grid"], case["extra"], tl)
     shp = shape_of(case["grid"], case["extra"])
     drv = np.array([float(v) for v in case["driver"]]).reshape(shp)
     if case.get("int_dtype") and np.all(drv == np.round(drv)):
@@ -110,12 +113,12 @@ def mk_stock(case):
     if k == "simple":
         out = np.array([float(v) for v in case["outflow"]]).reshape(shp)
         return fd.SimpleFlowDrivenStock(dims=dims, inflow=fd.StockArray(dims=dims, values=drv),
-                                        outflow=fd.StockArray(dims=dims, values=out), name="s")
+                                        outflow=fd.StockArray(dims=dims, values=out), name="s", time_letter=tl)
     lm = mk_lifetime(case, dims)
     if k == "idsm":
-        return fd.InflowDrivenDSM(dims=dims, inflow=fd.StockArray(dims=dims, values=drv), lifetime_model=lm, name="s")
+        return fd.InflowDrivenDSM(dims=dims, inflow=fd.StockArray(dims=dims, values=drv), lifetime_model=lm, name="s", time_letter=tl)
     return fd.StockDrivenDSM(dims=dims, stock=fd.StockArray(dims=dims, values=drv), lifetime_model=lm,
-                             solver=case.get("solver", "manual"), name="s")
+                             solver=case.get("solver", "manual"), name="s", time_letter=tl)
 
 
 def observe_stock(st, snap=True):
